@@ -250,7 +250,7 @@ def run(ctx):
         raise MachineryError("vacuous: no content-preserving edit was accepted")
     fx = fam.get("extra", {})
     members = fx.get("members") or []
-    if len(members) < 9:
+    if len(members) < 15:
         raise MachineryError("key family has only %d members" % len(members))
     for m in members:
         if fx.get("family.signatures." + m, 0) < 64:
